@@ -39,6 +39,7 @@ macro_rules! c04_poisson {
     };
 }
 //@ id: c04_poisson_f64
+//@ besteffort: yes
 //@ prop: C04
 //@ tier: thorough
 //@ cap: 600
